@@ -583,7 +583,9 @@ class Domain(BasicDomain):
         boundaries    = {i.minus:i.plus for i in interfaces}
         boundaries.update({value:key for key, value in boundaries.items()})
 
-        not_treated_corners = set([tuple(set((b, n))) for b in boundaries for n in b.adjacent_boundaries])
+        # an unordered corner needs ONE representation: tuple(set(..)) depends on hash collisions
+        ckey = lambda c: tuple(sorted(c, key=lambda b: (str(b.domain.name), b.axis, b.ext)))
+        not_treated_corners = set([ckey((b, n)) for b in boundaries for n in b.adjacent_boundaries])
         grouped_corners     = []
 
         while not_treated_corners:
@@ -619,7 +621,7 @@ class Domain(BasicDomain):
                         corner = (bd1.rotate(directions[bd2]), bd2)
                         grouped_corners[-1].insert(0, corner)
 
-            grouped_corners[-1] = tuple(tuple(set(c)) for c in grouped_corners[-1])
+            grouped_corners[-1] = tuple(ckey(c) for c in grouped_corners[-1])
             not_treated_corners = not_treated_corners.difference(grouped_corners[-1])
 
         grouped_corners = set(tuple(grouped_corners))
